@@ -76,10 +76,10 @@ func (r BedRec) inDomain() bool {
 func genBedRec(t *rapid.T, n int) BedRec {
 	r := BedRec{
 		N:          n,
-		Chrom:      bedFieldAlpha.Bytes(0, 8).Draw(t, "chrom"),
+		Chrom:      bedFieldAlpha.Field(8, 80, 2000).Draw(t, "chrom"),
 		ChromStart: gen.Ints().Draw(t, "start"),
 		ChromEnd:   gen.Ints().Draw(t, "end"),
-		Name:       bedFieldAlpha.Bytes(0, 8).Draw(t, "name"),
+		Name:       bedFieldAlpha.Field(8, 80, 2000).Draw(t, "name"),
 		Score:      gen.Ints().Draw(t, "score"),
 		Strand:     rapid.SampledFrom([]string{"+", "-", ".", ""}).Draw(t, "strand"),
 		ThickStart: gen.Ints().Draw(t, "thickStart"),
